@@ -1166,3 +1166,118 @@ def _c19_table(tier="quick", seed=0):
 
 _c19_prev = EXTRA_CHECKS.get("C19")
 EXTRA_CHECKS["C19"] = (lambda tier="quick", seed=0: (_c19_prev(tier, seed) if _c19_prev else []) + _c19_table(tier, seed))
+
+
+# ---- C07 "initial compartment sizes reproduce the databook values of the first simulated year": Model.build initialises every population at the model's first TIME (self.t[0]),
+# not at an index (the databook series are interpolated at that year)
+def _replay_initial_year():
+    """replay END TO END: the diabetes / cervicalcancer demo (databook values that change over the years) started one or two years after the first data year; a characteristic
+    used for initialisation must start at its databook value of the START year"""
+    import numpy as np
+
+    _quiet()
+    import atomica as at
+
+    bad, checked = [], 0
+    for demo, shift in (("diabetes", 2), ("cervicalcancer", 1)):
+        try:
+            P = at.demo(demo, do_run=False)
+        except Exception:  # noqa
+            continue
+        start = float(P.data.start_year) + shift
+        P.settings.update_time_vector(start=start, end=start + 2)
+        res = P.run_sim(P.parsets[0], store_results=False)
+        for name, tdve in P.data.tdve.items():
+            if name in res.model.pops[0] and name in P.framework.characs.index and P.framework.characs.at[name, "setup weight"] > 0 and not (P.framework.characs.at[name, "denominator"] == P.framework.characs.at[name, "denominator"]):
+                for pop in res.model.pops:
+                    ts = tdve.ts.get(pop.name)
+                    if ts is None or not ts.has_time_data:
+                        continue
+                    want = float(ts.interpolate(start)[0]) * P.parsets[0].pars[name].y_factor[pop.name] * P.parsets[0].pars[name].meta_y_factor
+                    got = float(pop.get_variable(name)[0].vals[0])
+                    checked += 1
+                    if abs(got - want) > 1e-6 * max(1.0, abs(want)):
+                        bad.append("%s / %s in %s: the run starts at %r, the databook value of %g is %r" % (demo, name, pop.name, got, start, want))
+    if not checked:
+        return dict(verdict="error", detail="no initialisation quantity with time data could be checked")
+    return dict(verdict="violates" if bad else "holds", detail="; ".join(bad[:2]) or "%d initial quantities equal their databook value of the start year" % checked, prestate=dict(demos=["diabetes", "cervicalcancer"], start="first data year + 2 / + 1"))
+
+
+def _c07_init_year(tier="quick", seed=0):
+    import ast
+
+    from pyvc import source
+
+    fi = source.lookup("model:Model.build")
+    calls = [c for c in ast.walk(fi.node) if isinstance(c, ast.Call) and isinstance(c.func, ast.Attribute) and c.func.attr == "initialize_compartments"]
+    out = []
+    for c in calls:
+        args = [ast.unparse(a) for a in c.args] + ["%s=%s" % (k.arg, ast.unparse(k.value)) for k in c.keywords]
+        year = ast.unparse(c.args[2]) if len(c.args) >= 3 else next((ast.unparse(k.value) for k in c.keywords if k.arg == "t_init"), None)
+        out.append(flow._ob("model:Model.build", "populations-are-initialised-at-the-first-simulated-year@L%d" % c.lineno, year == "self.t[0]", c.lineno,
+                            "call `%s(%s)`: the third argument (t_init, a YEAR) %s" % (ast.unparse(c.func), ", ".join(args), "is the model's first time" if year == "self.t[0]" else "is `%s`, not the model's first time `self.t[0]`" % year)))
+    if not calls:
+        out.append(flow._ob("model:Model.build", "populations-are-initialised-at-the-first-simulated-year:none-found", False, fi.lineno, "Model.build no longer calls initialize_compartments"))
+    return _attach(out, "populations-are-initialised", _replay_initial_year)
+
+
+_c07_prev = EXTRA_CHECKS.get("C07")
+EXTRA_CHECKS["C07"] = (lambda tier="quick", seed=0: (_c07_prev(tier, seed) if _c07_prev else []) + _c07_init_year(tier, seed))
+
+
+# ---- C10, the spreadsheet form of a saved state (Initialization.to_excel / from_excel: pandas, outside the engine's reach): BOUNDED stand-in, never counted as proved.
+# Random saved states in the order from_result produces them (population by population, 2..6 compartments each; scalars for plain compartments, arrays of 1..12 rows for timed
+# ones) are written with the real to_excel and read back with the real from_excel;
+# every value must come back to 16 significant digits, arrays with all their rows, together with year, step and calibration hash.
+def _bounded_saved_state_sheet(tier="quick", seed=0):
+    import io
+    import random
+    import time
+
+    import numpy as np
+    import pandas as pd
+
+    _quiet()
+    from atomica.parameters import Initialization
+
+    t0 = time.time()
+    rng = random.Random(seed)
+    n_cases = 12 if tier == "quick" else 120
+    bad = []
+    for case in range(n_cases):
+        values = {}
+        n_comps = rng.randint(2, 6)
+        shape = {c: rng.choice([0, 0, 1, 2, 3, 8, 12]) for c in range(n_comps)}
+        for pop in ("adults", "children", "elderly")[: rng.randint(1, 3)]:   # the order Initialization.from_result produces: population by population, each with all its compartments
+            for c in range(n_comps):
+                mag = 10 ** rng.uniform(-3, 7)
+                values[("comp_%d" % c, pop)] = (rng.random() * mag) if shape[c] == 0 else np.array([rng.random() * mag for _ in range(shape[c])])
+        init = Initialization(values=values, year=2000 + rng.randint(0, 30) + rng.choice([0.0, 0.25, 0.5]))
+        init.dt = rng.choice([1.0, 0.25, 1 / 12])
+        init.init_y_factor_hash = "hash%d" % case
+        buf = io.BytesIO()
+        try:
+            with pd.ExcelWriter(buf, engine="xlsxwriter") as w:
+                init.to_excel(w)
+            buf.seek(0)
+            back = Initialization.from_excel(pd.ExcelFile(buf))
+        except Exception as e:  # noqa
+            bad.append(dict(case=case, error="%s: %s" % (type(e).__name__, str(e)[:120])))
+            continue
+        for k, v in values.items():
+            got = back.values.get(k)
+            a, b = np.atleast_1d(np.asarray(v, dtype=float)), (np.atleast_1d(np.asarray(got, dtype=float)) if got is not None else np.array([]))
+            if a.shape != b.shape or not np.allclose(a, b, rtol=1e-15, atol=0):
+                bad.append(dict(case=case, key=list(k), saved=a.tolist(), read_back=b.tolist()))
+        if (float(back.year), float(back.dt), back.init_y_factor_hash) != (float(init.year), float(init.dt), init.init_y_factor_hash):
+            bad.append(dict(case=case, metadata_saved=[init.year, init.dt, init.init_y_factor_hash], metadata_read=[back.year, back.dt, back.init_y_factor_hash]))
+    ob = dict(function="parameters:Initialization.to_excel / from_excel (bounded sweep)", name="BOUNDED.saved_state_sheet_round_trip_on_%d_states" % n_cases, kind="bounded", status="proved" if not bad else "refuted",
+              seconds=round(time.time() - t0, 2), backend="bounded-enumeration",
+              note="bounded stand-in: %d random saved states (scalars and arrays of 1..12 rows) through the real to_excel / from_excel; not counted as proved" % n_cases)
+    if bad:
+        ob["replay"] = dict(verdict="violates", detail="first failing states: %r" % bad[:2], prestate=bad[0])
+    return [ob]
+
+
+_c10_before_sheet = EXTRA_CHECKS["C10"]
+EXTRA_CHECKS["C10"] = (lambda tier="quick", seed=0: _c10_before_sheet(tier, seed) + _bounded_saved_state_sheet(tier, seed))
